@@ -164,6 +164,11 @@ type DecCase struct {
 	Cfg     DCfg     `json:"cfg"`
 	Writer  []WEvent `json:"writer,omitempty"`
 	Ops     []DOp    `json:"ops"`
+	// Direct (dbuf): the DecoderBuffer is not initialised with Init; the
+	// caller sets the exported configuration fields of the zero value itself
+	// (WindowSize may then be 0: no byte can be referenced; BufferSize is
+	// given and larger than the window). Verify accepts what is set.
+	Direct bool `json:"direct,omitempty"`
 	// WriterFlush (dec): the writer also has a Flush() error method, as
 	// buffered writers have; it does not remember errors of Write (its Flush
 	// returns nil), which the io.Writer contract does not ask for.
@@ -280,6 +285,18 @@ func newDecExec(c DecCase) (*decExec, error) {
 			x.buf = new(lz.DecoderBuffer)
 			if c.PreCap != 0 {
 				x.buf.Data = preCapSlice(c.PreCap)
+			}
+			if c.Direct {
+				x.cc = c.Cfg // nothing is completed: the fields are taken as they are
+				if cfg.BufferSize <= cfg.WindowSize || cfg.WindowSize < 0 {
+					err = fmt.Errorf("direct configuration needs BufferSize > WindowSize >= 0")
+					return
+				}
+				if err = cfg.Verify(); err != nil {
+					return
+				}
+				x.buf.DecoderConfig = cfg
+				return
 			}
 			err = x.buf.Init(cfg)
 		case "dec":
@@ -1016,6 +1033,12 @@ func (x *decExec) doReset() {
 // doReinit calls Init again on a used DecoderBuffer or Decoder: like Reset,
 // with a configuration given anew (the same one or another accepted one).
 func (x *decExec) doReinit(op DOp) {
+	if x.c.Direct && op.Cfg == nil {
+		// the configuration of the case was never given to Init (with
+		// defaults completed it may not even be a legal one): a plain Reset
+		x.doReset()
+		return
+	}
 	cfg := x.c.Cfg
 	if op.Cfg != nil {
 		cfg = *op.Cfg
